@@ -43,3 +43,32 @@ PROPS['C02'] = dict(
     assumptions=['the settlement of the consumed message is sampled inside the scripted Publish (entry and exit)',
                  'panic(nil) is a *runtime.PanicNilError (go >= 1.21 semantics of the harness module)'],
 )
+
+PROPS['C08'] = dict(
+    level='model_checking',
+    design=[
+        D('RouterHandler', 'MCRouterHandler.cfg'),
+    ],
+    traces={'RouterRoutingTrace': dict(module='RouterRoutingTrace', cfg='RouterRoutingTrace.cfg')},
+    rule='runs = every router configuration of 1 and 2 handlers over {2 subscribers} x {2 topics} x {no publisher | 2 publishers x 2 topics}, plus random '
+         'configurations of 3..6 handlers; each subscription gets 1-2 messages with random output shapes (none, one, two, the consumed message itself, one '
+         'object twice, error with output, middleware-added output), emitted concurrently across subscriptions; distinct = distinct configuration; '
+         'non-trivial = more than one handler on the router',
+    exhaustive=False,
+    min_stats={'exhaustive_configs': 400},
+    assumptions=['handlers sharing subscriber and topic are distinguished only by which subscription they read (ownership is learned, must be injective)'],
+)
+
+PROPS['C09'] = dict(
+    level='model_checking',
+    design=[D('MiddlewareOrder', 'MCMiddlewareOrder.cfg', coverage=True)],
+    traces={'MiddlewareOrderTrace': dict(module='MiddlewareOrderTrace', cfg='MiddlewareOrderTrace.cfg')},
+    rule='runs = every registration sequence over {router-level, handler A, handler B} up to the tier length (4 quick / 6 thorough) with every placement of the '
+         'two AddHandler calls the API permits, decorated with up to 5 publisher and 5 subscriber decorators at random positions, plus random programs up to '
+         'length 20 over 4 handlers with up to two intermediate starts (handlers added to a running router + RunHandlers); distinct = distinct program; '
+         'non-trivial = at least two middlewares and two handlers',
+    exhaustive=True,
+    min_stats={'enumerated_programs': 500},
+    assumptions=['after every start one message is sent through each started handler before the program continues, so that the middleware snapshot of a '
+                 'started handler (taken asynchronously by its goroutine) is fixed before later registrations'],
+)
